@@ -655,7 +655,9 @@ PROPERTIES = {
         "leanchecker": ["Ysgo.Props.C05", "Ysgo.Props.C05Facts", "Ysgo.Props.C01Listener"],
     },
     "C06": runprop("faults", (), (), 2000, 80000,
-                   extra_streams=[{"stream": "bridge", "profile": "sample", "quick": 5000, "thorough": 100000, "predicate": no_panic,
+                   extra_streams=[{"stream": "hostile", "profile": "mix", "quick": 3000, "thorough": 150000, "predicate": no_panic, "project": lambda obs, case: [],
+                                   "nontrivial": lambda obs, case: "ERR" in obs and "L" in obs},
+                                  {"stream": "bridge", "profile": "sample", "quick": 5000, "thorough": 100000, "predicate": no_panic,
                                    "nontrivial": lambda obs, case: any(o.startswith("REG OK") for o in obs)}],
                    nontrivial=lambda obs, case: sum(1 for o in obs if obs_kind(o) == "ERR") >= 2 and any(obs_kind(o) in ("L", "O") for o in obs),
                    rule="run/faults: valid scripts in which every expression position holds a faulty expression with probability 1/2 (ill-typed operations, unknown names, null, value-less functions, dice(0), inverted ranges, NaN/Inf arguments); compared: result class only; predicate: no panic; non-trivial = at least two errors and an element after which the runner was still usable",
